@@ -2,11 +2,9 @@ package engine
 
 import "fmt"
 
-func RunC19(cfg Config) (*ShardResult, error) { return nil, fmt.Errorf("C19 not built yet") }
 func RunC20(cfg Config) (*ShardResult, error) { return nil, fmt.Errorf("C20 not built yet") }
-func RunChild(cfg Config, req string) int       { return 2 }
 
-func minimiseC19(cfg Config, v Violation, b Deadline) Violation { return v }
+func c20Child(cfg Config, kind string, req []byte) int { return 2 }
+
 func minimiseC20(cfg Config, v Violation, b Deadline) Violation { return v }
-func replayC19(cfg Config, rf ReplayFile) (*Violation, error)   { return nil, fmt.Errorf("nyi") }
 func replayC20(cfg Config, rf ReplayFile) (*Violation, error)   { return nil, fmt.Errorf("nyi") }
